@@ -325,8 +325,9 @@ class Repo:
                 if mod.endswith('.__init__'):
                     mod = mod[:-9]
                 from . import canon, normalize
-                self.normalizations.extend(normalize.apply(tree, mod))
-                self.local_renames.extend(canon.apply(tree, mod))
+                done = normalize.apply(tree, mod)
+                self.normalizations.extend(d for d in done if d[0] != 'rename')
+                self.local_renames.extend(d for d in done if d[0] == 'rename')
                 set_parents(tree)
                 m = Module(mod, path, rel, src, tree)
                 self.modules[mod] = m
